@@ -88,6 +88,82 @@ Fixpoint val_eqb (fuel : nat) (a b : val) {struct fuel} : bool :=
     end
   end.
 
+(* ---- custom function oracle: deterministic, value dependent (the harness generates the same Go bodies) ---- *)
+(* first basic leaf of a value (depth first; nil / empty parts have none) *)
+Fixpoint leaf (fuel : nat) (v : val) : option Z :=
+  match fuel with
+  | O => None
+  | S f =>
+    match v with
+    | VBasic z => Some z
+    | VPtr _ x => leaf f x
+    | VSlice _ (x :: _) => leaf f x
+    | VArr (x :: _) => leaf f x
+    | VStruct fs => (fix first (l : list val) := match l with [] => None | x :: r => match leaf f x with Some z => Some z | None => first r end end) fs
+    | _ => None
+    end
+  end.
+Definition leaf0 (v : val) : Z := match leaf 60 v with Some z => z | None => 0%Z end.
+
+(* error values: failing function, completed Wrap calls (outermost first), path elements not yet wrapped *)
+Inductive delem := DField (name : rstr) | DIndex (i : N) | DKey (k : Z).
+Record errv := { er_fn : N; er_wraps : list (list delem); er_pending : list delem }.
+Definition push_elem (d : delem) (er : errv) : errv :=
+  {| er_fn := er_fn er; er_wraps := er_wraps er; er_pending := d :: er_pending er |}.
+(* leaving a method body: the failing call site wrapped the error according to the method's wrap setting:
+   2 wrapErrorsUsing (all elements), 1 wrapErrors (innermost element if it is a field or an index), 0 none *)
+Definition finalize (mode : N) (er : errv) : errv :=
+  match mode with
+  | 2 => {| er_fn := er_fn er; er_wraps := er_pending er :: er_wraps er; er_pending := [] |}
+  | 1 => match rev (er_pending er) with
+         | DField n :: _ => {| er_fn := er_fn er; er_wraps := [DField n] :: er_wraps er; er_pending := [] |}
+         | DIndex i :: _ => {| er_fn := er_fn er; er_wraps := [DIndex i] :: er_wraps er; er_pending := [] |}
+         | _ => {| er_fn := er_fn er; er_wraps := er_wraps er; er_pending := [] |}
+         end
+  | _ => {| er_fn := er_fn er; er_wraps := er_wraps er; er_pending := [] |}
+  end.
+
+(* a token as a value of basic kind k (bool: parity; uint8: below 251) *)
+Definition fit (k : N) (tok : Z) : Z := if k =? BK_BOOL then Z.modulo tok 2 else if k =? 8 then Z.modulo tok 251 else tok.
+
+Section mark.
+  Variable e : env.
+  (* value of type t carrying token tok at its first markable leaf; fresh addresses from the counter *)
+  Fixpoint mark_fields (mk : ty -> N -> val * N * bool) (zr : ty -> val) (l : list (rstr * ty)) (st : N) (done : bool) {struct l} : list val * N * bool :=
+    match l with
+    | [] => ([], st, done)
+    | (_, ft) :: r =>
+      if done then let '(vs, st', d) := mark_fields mk zr r st true in (zr ft :: vs, st', d)
+      else let '(v, st1, ok) := mk ft st in
+           if ok then let '(vs, st', d) := mark_fields mk zr r st1 true in (v :: vs, st', d)
+           else let '(vs, st', d) := mark_fields mk zr r st false in (zr ft :: vs, st', d)
+    end.
+  Fixpoint mark (fuel : nat) (t : ty) (tok : Z) (st : N) {struct fuel} : val * N * bool :=   (* value, counter, marked? *)
+    match fuel with
+    | O => (VNil, st, false)
+    | S f =>
+      match under e t with
+      | TBasic k => (VBasic (fit k tok), st, true)
+      | TPtr x => let '(v, st1, ok) := mark f x tok st in (VPtr st1 v, st1 + 1, ok)
+      | TSlice x => let '(v, st1, ok) := mark f x tok st in (VSlice st1 [v], st1 + 1, ok)
+      | TStruct _ fs => let '(vs, st1, ok) := mark_fields (fun ft st => mark f ft tok st) (zero e ZFUEL) fs st false in (VStruct vs, st1, ok)
+      | _ => (zero e ZFUEL t, st, false)
+      end
+    end.
+  Lemma mark_S f t tok st : mark (S f) t tok st =
+      match under e t with
+      | TBasic k => (VBasic (fit k tok), st, true)
+      | TPtr x => let '(v, st1, ok) := mark f x tok st in (VPtr st1 v, st1 + 1, ok)
+      | TSlice x => let '(v, st1, ok) := mark f x tok st in (VSlice st1 [v], st1 + 1, ok)
+      | TStruct _ fs => let '(vs, st1, ok) := mark_fields (fun ft st => mark f ft tok st) (zero e ZFUEL) fs st false in (VStruct vs, st1, ok)
+      | _ => (zero e ZFUEL t, st, false)
+      end.
+  Proof. reflexivity. Qed.
+End mark.
+Definition mark_token (f : N) (src_leaf ctx_sum : Z) : Z := (Z.of_N (f + 1) * 1000 + Z.modulo src_leaf 97 * 7 + Z.modulo ctx_sum 13)%Z.
+(* a fallible function fails on the source values whose leaf is congruent to its number modulo 5 *)
+Definition fn_fails (f : N) (src_leaf : Z) : bool := Z.eqb (Z.modulo src_leaf 5) (Z.modulo (Z.of_N f) 5).
+
 (* paths (for C04): where in a value does an address below n0 (i.e. one of the source) occur *)
 Inductive pstep := PDeref | PIdx (i : N) | PKey (k : Z) | PField (i : N).
 Definition pstep_eqb (a b : pstep) : bool :=
